@@ -79,7 +79,7 @@ SCALARS = {
     'unsigned long long': 'unsigned long long', 'long long': 'long long', 'signed char': 'signed char',
     'float': 'float', 'double': 'double', 'time_t': 'long', 'uintptr_t': 'uintptr_t', 'intptr_t': 'intptr_t',
     'ptrdiff_t': 'ptrdiff_t', 'std::ptrdiff_t': 'ptrdiff_t', 'off_t': 'long', 'pid_t': 'int', 'socklen_t': 'unsigned int',
-    'iovec': 'struct iovec', 'timezone': 'struct timezone', 'tm': 'struct tm', 'epoll_event': 'struct epoll_event', 'fd_set': 'fd_set', '__fd_mask': 'long', '__sigset_t': 'sigset_t', 'sigset_t': 'sigset_t', 'sigaction': 'struct sigaction', 'siginfo_t': 'siginfo_t', 'timeval': 'struct timeval', 'timespec': 'struct timespec',
+    'iovec': 'struct iovec', 'timezone': 'struct timezone', 'tm': 'struct tm', 'epoll_event': 'struct epoll_event', 'fd_set': 'fd_set', '__fd_mask': 'long', '__sigset_t': 'sigset_t', 'sigset_t': 'sigset_t', 'sigaction': 'struct sigaction', 'siginfo_t': 'siginfo_t', 'timeval': 'struct timeval', 'timespec': 'struct timespec', 'sockaddr_in': 'struct sockaddr_in', 'sockaddr': 'struct sockaddr', 'socklen_t': 'socklen_t',
     '__uint8_t': 'uint8_t', '__uint16_t': 'uint16_t', '__uint32_t': 'uint32_t', '__uint64_t': 'uint64_t',
 }
 INT_RANGE = {
@@ -718,6 +718,8 @@ class Unit:
                 if self.models:
                     mv = self.models.enum_constant(r['name'])
                     if mv is not None: return mv
+                if re.match(r'^(MSG_[A-Z]+|SHUT_(RD|WR|RDWR)|SOCK_(STREAM|DGRAM|NONBLOCK|CLOEXEC)|IPPROTO_[A-Z]+)$', r['name']):
+                    return r['name']         # enumerator of <sys/socket.h> / <netinet/in.h> (included by models/libc_model.h): the C compiler resolves it
                 raise Unsupported('enumerator %s outside the unit' % r['name'])
             en = self.parent[r['id']]
             self.need_enum(self.qname[en['id']])
@@ -964,6 +966,12 @@ class Unit:
             self.func_order.append(name)
         return True
 
+    def record_by_cname(self, rec):
+        """the record node whose emitted C name is `rec` (None if it is not a record of the unit)"""
+        for q, rn in self.records.items():
+            if self.mangle(q) == rec: return rn
+        return None
+
     def dtor_of_cname(self, rec):
         """C name of the destructor of emitted record `rec`, if it has a user-provided one"""
         for q, rn in self.records.items():
@@ -1196,7 +1204,7 @@ class Unit:
             self.need_func(cid); return self.func_cname(cid)
         if fn.get('isImplicit') or fn.get('explicitlyDefaulted'):
             return self.implicit_ctor(cid, ce)
-        raise Unsupported('constructor %s declared but not defined in the unit' % self.qname.get(cid))
+        raise Unsupported('constructor %s [%s] declared but not defined in the unit' % (self.qname.get(cid), self.func_cname(cid)))
 
     def implicit_ctor(self, cid, ce):
         """implicit default / copy constructors of PODs in the unit"""
@@ -1714,7 +1722,7 @@ class Unit:
         if self.models and self.models.is_model_type(ct) and not is_ref and '*' not in ct:
             self.models.local_object(self, v, ct, name, ks, p)
             return
-        SYS = ('struct iovec', 'struct timeval', 'struct timespec', 'struct timezone', 'struct tm', 'struct epoll_event', 'fd_set', 'sigset_t', 'struct sigaction')
+        SYS = ('struct iovec', 'struct timeval', 'struct timespec', 'struct timezone', 'struct tm', 'struct epoll_event', 'fd_set', 'sigset_t', 'struct sigaction', 'struct sockaddr_in', 'struct sockaddr')
         if ct.startswith('struct ') and not ct.strip().endswith('*') and not is_ref and '[' not in txt and ct not in SYS:
             rec = ct[len('struct '):].strip()
             ce = self.strip_tmp(ks[0]) if ks else None
@@ -1722,7 +1730,13 @@ class Unit:
                 self.w(p + '%s;' % txt)
                 self.flush_expr_stmt(self.ctor_stmt(ce, '&' + name), p)
             elif ce is not None and ce['kind'] == 'InitListExpr':
-                self.w(p + '%s = %s;' % (txt, '{' + ', '.join(self.expr(x) for x in self.kids(ce)) + '}'))
+                init = '{' + ', '.join(self.expr(x) for x in self.kids(ce)) + '}'
+                if self.pre or self.post:
+                    # the initialisers need temporaries (printed in their own block): declared first, assigned inside that block
+                    self.w(p + '%s;' % txt.replace('const ', ''))
+                    self.flush_expr_stmt('%s = (%s)%s;' % (name, ct.replace('const ', ''), init), p)
+                else:
+                    self.w(p + '%s = %s;' % (txt, init))
             elif ce is not None:
                 val = self.expr(ce)
                 self.flush_expr_stmt('%s = %s;' % (txt, val), p)
